@@ -71,6 +71,7 @@ type Exec struct {
 	inlined         map[string]int
 	usedContracts   map[string]bool
 	metaClauses     map[string]bool
+	probeCount      map[string]int
 	assignAll       bool
 	qcount          int
 	unsupPaths      []string
@@ -321,7 +322,9 @@ func (x *Exec) execFrom(st *State, b *ssa.BasicBlock, idx int) {
 			return
 		case *ssa.RunDefers:
 			if len(st.top().defers) > 0 {
-				x.unsupportedf("defer in %s", st.top().fn.Name())
+				blk, next := b, i+1
+				x.runDefers(st, func(st2 *State) { x.execFrom(st2, blk, next) })
+				return
 			}
 			continue
 		case *ssa.Call:
@@ -336,7 +339,22 @@ func (x *Exec) execFrom(st *State, b *ssa.BasicBlock, idx int) {
 			})
 			return
 		case *ssa.Defer:
-			x.unsupportedf("defer statement at %s", x.posOf(v))
+			// arguments (and the closure with its bindings) are evaluated now, the call runs at RunDefers
+			fr := st.top()
+			var args []Value
+			if v.Call.IsInvoke() {
+				x.unsupportedf("deferred interface call at %s", x.posOf(v))
+			}
+			for _, a := range v.Call.Args {
+				args = append(args, x.val(st, a))
+			}
+			var fv Value
+			if _, isB := v.Call.Value.(*ssa.Builtin); !isB {
+				fv = x.val(st, v.Call.Value)
+			}
+			fr.defers = append(fr.defers, v)
+			fr.deferA = append(fr.deferA, append([]Value{fv}, args...))
+			continue
 		case *ssa.Go:
 			x.unsupportedf("go statement at %s", x.posOf(v))
 		default:
@@ -594,6 +612,9 @@ func (x *Exec) makeSlice(st *State, elem types.Type, n, c Term, zero bool) Slice
 		x.zeroArray(st, elem, ref)
 	}
 	st.assign = append(st.assign, Region{IsElem: true, Arr: ref, ElemKey: typeKey(elem), Desc: "make"})
+	// ghost ownership (C19): arrays allocated by library code are library-owned
+	gm := mapRef{smtName("H!ghost!lib"), ArraySort(SInt, SInt)}
+	x.heapSet(st, gm, Store(x.heapGet(st, gm), ref, IntLit(1)))
 	return SliceV{Arr: ref, Off: IntLit(0), Len: n, Cap: c, Elem: elem}
 }
 
@@ -1144,4 +1165,36 @@ func refutedAntecedent(st *State, goal string) bool {
 		}
 	}
 	return false
+}
+
+
+// runDefers executes the deferred calls of the top frame in LIFO order, then continues with k.
+func (x *Exec) runDefers(st *State, k func(*State)) {
+	fr := st.top()
+	if len(fr.defers) == 0 {
+		k(st)
+		return
+	}
+	n := len(fr.defers) - 1
+	d, da := fr.defers[n], fr.deferA[n]
+	fr.defers, fr.deferA = fr.defers[:n], fr.deferA[:n]
+	pos := x.posOf(d)
+	next := func(st2 *State, _ Value) { x.runDefers(st2, k) }
+	args := da[1:]
+	switch f := d.Call.Value.(type) {
+	case *ssa.Builtin:
+		x.unsupportedf("deferred builtin %s at %s", f.Name(), pos)
+	case *ssa.Function:
+		x.callByKey(st, funcKey(f), f, f.Signature, args, pos, next)
+	default:
+		fv, ok := da[0].(FuncV)
+		if !ok {
+			x.unsupportedf("deferred dynamic call at %s", pos)
+		}
+		fn, ok := fv.Fn.(*ssa.Function)
+		if !ok || fn == nil {
+			x.unsupportedf("deferred call of unknown function value at %s", pos)
+		}
+		x.callFunction(st, funcKey(fn), fn, fn.Signature, args, fv.Bind, pos, next)
+	}
 }
